@@ -44,6 +44,7 @@ def esc(s: str) -> str:
 _PLAIN = re.compile(r"[A-Za-z_][A-Za-z0-9_]*\Z")
 # bare multi-word spelling: an identifier followed by further words, each an identifier or a "quoted chunk" (whose quote
 # characters are part of the coalesced content)
+_PCTFLOW = re.compile(r"\d+%→[A-Za-z_][A-Za-z0-9_]*\Z")
 _PERCENT = re.compile(r"\d+\.\d*0%\Z|0\d+%\Z")      # percentages whose number is not in shortest form (canonical text quotes them)
 _WORDS = re.compile(r'[A-Za-z_][A-Za-z0-9_]*( ([A-Za-z_][A-Za-z0-9_]*|"[^" \\\\]*"))+\Z')
 RESERVED = ("true", "false", "null", "vs")
@@ -118,13 +119,18 @@ class _R:
         if words_ok:
             kinds.append("words")
         if _PERCENT.match(text):
-            kinds.append("barepct")       # a percentage may be written bare (GH#287); the canonical text quotes it
+            kinds.append("barepct")
+        if _PCTFLOW.match(text):
+            kinds.append("barepctflow")   # 60%→B may be written bare, the arrow as its ASCII alias tight against the operand; canonical text quotes it       # a percentage may be written bare (GH#287); the canonical text quotes it
         o = self.pick("quote_form", len(kinds)) if len(kinds) > 1 else 0
         kind = kinds[o]
         if kind == "q":
             return [('"' + esc(text) + '"', None)]
         if kind == "barepct":
             return [(text, None)]
+        if kind == "barepctflow":
+            left, right = text.split("→", 1)
+            return [(left, None), ("->", ("normalization", "->", "→")), (right, None)]
         if kind == "triple":
             body = text.replace("\\", "\\\\").replace("\t", "\\t")
             return [('"""' + body + '"""', ("normalization", '"""', text))]
